@@ -393,7 +393,7 @@ var propC04 = &Prop[BranchCase]{
 				}
 			}
 		}
-		return true
+		return tier == "thorough"
 	},
 }
 
